@@ -33,9 +33,9 @@ def meta(prop, rule, budget, min_counts=None, assumptions=(), exhaustive=None, s
 
 
 meta("C01",
-     rule="documents drawn from the model grammar (G1, <=40 lines, GFA1 and GFA2, canonical and free spelling) x vlevel 0-3 x version explicit/auto x entry point (string, string+newline, list, file LF, file CRLF); a case is non-trivial when the document has >=1 reference-bearing record and >=3 distinct tag datatypes; distinct = distinct (document, configuration) hashes",
+     rule="documents drawn from the model grammar (G1, <=40 lines, GFA1 and GFA2, canonical and free spelling) x vlevel 0-3 x version explicit/auto x entry point (string, string+newline, list, file LF, file CRLF); a case is non-trivial when the document has >=1 reference-bearing record and >=3 distinct tag datatypes; distinct = distinct (document, configuration) hashes 12% rGFA documents (dialect='rgfa'); entry points also Gfa().read_file (with and without progress logging), lists of Line objects, add_line/append one by one.",
      budget={"quick": 22, "thorough": 300},
-     min_counts={"quick": {"roundtrips": 2000, "rt:S": 1, "rt:L": 1, "rt:C": 1, "rt:P": 1, "rt:E": 1,
+     min_counts={"quick": {"rgfa_documents": 500, "roundtrips": 2000, "rt:S": 1, "rt:L": 1, "rt:C": 1, "rt:P": 1, "rt:E": 1,
                            "rt:F": 1, "rt:G": 1, "rt:O": 1, "rt:U": 1, "rt:H": 1, "rt:#": 1,
                            "rt:custom": 1, "line_roundtrips": 2000,
                            "documents_with_both_complement_forms": 100}},
@@ -51,9 +51,9 @@ meta("C05",
      budget={"quick": 30, "thorough": 400},
      min_counts={"quick": {"text_comparisons": 2000, "fresh_parse_comparisons": 1000, "cascading_removals": 50, "op:rename": 50}})
 meta("C08",
-     rule="G3 histories in which ~55% of the steps are calls the text model / grammar marks as failing (duplicate or clashing identifiers for every pair of record types, renames to identifiers in use, version conflicts, malformed lines, conflicting header values, edits of reference fields of connected lines, rm of unknown ids) interleaved with successful steps; full public observation compared before/after each raising call; non-trivial = history with >=1 raising call on a non-empty Gfa Probe steps: calls for which the text model has no verdict (identifiers mentioned in roles their carriers cannot play, lines taking the place of placeholders) are executed and, when they raise, must leave the observation unchanged; unknown-version scenarios include TS conflicts on VN headers.",
+     rule="G3 histories in which ~55% of the steps are calls the text model / grammar marks as failing (duplicate or clashing identifiers for every pair of record types, renames to identifiers in use, version conflicts, malformed lines, conflicting header values, edits of reference fields of connected lines, rm of unknown ids) interleaved with successful steps; full public observation compared before/after each raising call; non-trivial = history with >=1 raising call on a non-empty Gfa Probe steps: calls for which the text model has no verdict (identifiers mentioned in roles their carriers cannot play, lines taking the place of placeholders) are executed and, when they raise, must leave the observation unchanged; unknown-version scenarios include TS conflicts on VN headers. Level-0 unknown-version scenarios; header.add() call sequences with conflicting datatypes/values; group lines which define a tag of the group differently; the observation includes n_input_header_lines and the header values as returned by the API.",
      budget={"quick": 25, "thorough": 400},
-     min_counts={"quick": {"probe_calls_failed": 400, "failing_calls": 1500}},
+     min_counts={"quick": {"header_add_calls": 300, "probe_calls_failed": 400, "failing_calls": 1500}},
      set_samples=["failure_classes"])
 meta("C09",
      rule="G3 histories with ~45% identifier clashes (additions and renames of every identified record type to identifiers in use by the same or another type) and legal renames; unique_names walker after every outermost mutation; model comparison after renames; non-trivial = history with a cross-type clash or a rename After every successful step a lookup oracle compares names/line()/segment() with the model (each identifier listed once and found as the real line that writes the model's record; freed identifiers not found), placeholders must exist exactly for mentioned-undefined identifiers, and line objects obtained earlier which claim to be connected must be the registered ones; L/C identifier tags are set, renamed and deleted; renames onto placeholders and to '*'.",
@@ -70,21 +70,21 @@ meta("C04",
      set_samples=["dt_verdicts", "doc_reasons"])
 
 meta("C07",
-     rule="G4 hostile text (empty/blank lines, every record letter with 0..10 fields from a pool of boundary atoms, printable/non-printable/non-ASCII garbage, very long fields, deep JSON) and single-point mutants of generated valid lines/documents, x vlevel 0-3 x version {None,gfa1,gfa2} x dialect, through Line(), Gfa(str|list), from_file, add_line; then follow-up public calls (line/segment/try_get_*/rm/validate/str, get/set/validate_field/field_to_s/delete/set_datatype) with hostile names and values; bin/gfapy-validate on generated files; every call runs under a logical step budget (5e6 + 5000*bytes function entries + loop back-edges inside gfapy/); non-trivial = case that reached a raise site not seen before in its shard Plus API-call histories (additions, removals, renames, tag and field edits incl. fragment external, probes) run through the client classifier; every field name of every record type is offered to set(); line instances are removed.",
+     rule="G4 hostile text (empty/blank lines, every record letter with 0..10 fields from a pool of boundary atoms, printable/non-printable/non-ASCII garbage, very long fields, deep JSON) and single-point mutants of generated valid lines/documents, x vlevel 0-3 x version {None,gfa1,gfa2} x dialect, through Line(), Gfa(str|list), from_file, add_line; then follow-up public calls (line/segment/try_get_*/rm/validate/str, get/set/validate_field/field_to_s/delete/set_datatype) with hostile names and values; bin/gfapy-validate on generated files; every call runs under a logical step budget (5e6 + 5000*bytes function entries + loop back-edges inside gfapy/); non-trivial = case that reached a raise site not seen before in its shard Plus API-call histories (additions, removals, renames, tag and field edits incl. fragment external, probes) run through the client classifier; every field name of every record type is offered to set(); line instances are removed. Systematic stratum first: every field of every record type (64 slots) replaced by each of 36 atoms, levels 0/1/3, then a deterministic sweep (names, writers, validations, every field read, group resolution, removal of every line).",
      budget={"quick": 35, "thorough": 500},
-     min_counts={"quick": {"histories": 200, "public_calls": 30000, "gfapy_errors": 5000, "cli_runs": 20}},
+     min_counts={"quick": {"systematic_documents": 2500, "systematic_slots": 60, "histories": 200, "public_calls": 30000, "gfapy_errors": 5000, "cli_runs": 20}},
      assumptions=["files are written as UTF-8 text; undecodable bytes and missing files are environment faults outside the claim",
                   "termination is restated as bounded progress: no call may exceed the deterministic step budget; a wall-clock watchdog firing is inconclusive"])
 
 meta("C03",
-     rule="valid GFA1/GFA2 documents of 3..5 (quick) / 3..7 (thorough) lines with every record family: ALL n! arrival orders are executed and the full public observation (version, written records, namespace, per-line reference targets, per-collection back-references, path link direction flags) must be identical across orders, equal the model's neighbourhoods, and contain no placeholder for a defined identifier; larger documents (<=14 lines) with sampled orders; non-trivial = document with >=1 referencing record and >1 order; distinct = distinct documents",
+     rule="valid GFA1/GFA2 documents of 3..5 (quick) / 3..7 (thorough) lines with every record family: ALL n! arrival orders are executed and the full public observation (version, written records, namespace, per-line reference targets, per-collection back-references, path link direction flags) must be identical across orders, equal the model's neighbourhoods, and contain no placeholder for a defined identifier; larger documents (<=14 lines) with sampled orders; non-trivial = document with >=1 referencing record and >1 order; distinct = distinct documents 25% of the all-orders documents carry a twin record (two records written identically: C without ID, F, '*'-named E/G/O/U); reference targets are marked when they are placeholders or not the registered object.",
      budget={"quick": 30, "thorough": 500},
-     min_counts={"quick": {"permutations": 20000, "documents_all_orders": 100}},
+     min_counts={"quick": {"documents_with_twin_records": 30, "permutations": 20000, "documents_all_orders": 100}},
      exhaustive=None)
 meta("C13",
-     rule="documents assembled from pools of GFA1-only, GFA2-only and version-neutral lines (pure, neutral, mixed; every line distinct so that multiplicity is observable) x explicit version {None,gfa1,gfa2} x dialect {standard,rgfa} x entry point {Gfa(list), Gfa(str), from_file} x vlevel; ALL permutations for documents of <=6 (quick) / <=7 (thorough) lines; expected version / VersionError from the independent line classifier; each input line must appear exactly once; non-trivial = document with a version-ambiguous line arriving before the deciding line 20% line-by-line scenarios: refused lines which hint at a version among neutral lines, then content of either version: the version follows from the accepted lines alone.",
+     rule="documents assembled from pools of GFA1-only, GFA2-only and version-neutral lines (pure, neutral, mixed; every line distinct so that multiplicity is observable) x explicit version {None,gfa1,gfa2} x dialect {standard,rgfa} x entry point {Gfa(list), Gfa(str), from_file} x vlevel; ALL permutations for documents of <=6 (quick) / <=7 (thorough) lines; expected version / VersionError from the independent line classifier; each input line must appear exactly once; non-trivial = document with a version-ambiguous line arriving before the deciding line 20% line-by-line scenarios: refused lines which hint at a version among neutral lines, then content of either version: the version follows from the accepted lines alone. Documents with a VN header naming a version which does not exist (1.1, 2.1, gfa1, ...): refused in every order.",
      budget={"quick": 25, "thorough": 400},
-     min_counts={"quick": {"incremental_calls": 250, "incremental_refusals": 60, "orders": 20000, "documents_all_orders": 200}},
+     min_counts={"quick": {"unsupported_vn_documents_orders": 300, "incremental_calls": 250, "incremental_refusals": 60, "orders": 20000, "documents_all_orders": 200}},
      set_samples=["kinds"])
 
 meta("C10",
@@ -107,31 +107,31 @@ meta("C19",
                            "clone:#": 1, "clone:custom": 1}},
      set_samples=["cloned_mutable_kinds"])
 meta("C20",
-     rule="Python values of every supported kind (int, finite float, str, char, JSON list/dict, integer/float array, byte array) on and next to subtype/grammar boundaries, and values the datatype cannot represent (tab/newline/non-printable strings, non-finite floats, mixed/out-of-range/empty arrays, bytes > 255, JSON with non-printables), assigned by set() / attribute / after set_datatype on S, L, E, H lines at vlevel 0-3; checked: default datatype, validate_field, written tag vs the datatype grammar, smallest array subtype, read back through gfapy.Line(str(line)) equal with the same datatype; unrepresentable values must fail validation and not be written unflagged at level >= 2; distinct = (kind, value, way, level, carrier) 12% any-class cells (a Python value of any class offered to each declared datatype: never a foreign exception, never malformed text after passing validation); 25% of the good cases assign on a line whose clone got a value of another class under the same tag first; float arrays draw |x| >= 1e16.",
+     rule="Python values of every supported kind (int, finite float, str, char, JSON list/dict, integer/float array, byte array) on and next to subtype/grammar boundaries, and values the datatype cannot represent (tab/newline/non-printable strings, non-finite floats, mixed/out-of-range/empty arrays, bytes > 255, JSON with non-printables), assigned by set() / attribute / after set_datatype on S, L, E, H lines at vlevel 0-3; checked: default datatype, validate_field, written tag vs the datatype grammar, smallest array subtype, read back through gfapy.Line(str(line)) equal with the same datatype; unrepresentable values must fail validation and not be written unflagged at level >= 2; distinct = (kind, value, way, level, carrier) 12% any-class cells (a Python value of any class offered to each declared datatype: never a foreign exception, never malformed text after passing validation); 25% of the good cases assign on a line whose clone got a value of another class under the same tag first; float arrays draw |x| >= 1e16. 30%: carriers of every record type (S L C P E F G O U custom) connected to a Gfa, then rename / further group line / re-add / re-parse before the read-back; 20%: the tag existed before with a value of another class and was removed (None or delete).",
      budget={"quick": 20, "thorough": 300},
-     min_counts={"quick": {"anyclass_assignments": 10000, "sibling_assignments": 10000, "assignments": 30000, "read_backs": 10000, "bad_values_validated": 2000, "kinds": 14}},
+     min_counts={"quick": {"connected_read_backs": 20000, "removed_then_assigned": 10000, "anyclass_assignments": 10000, "sibling_assignments": 10000, "assignments": 30000, "read_backs": 10000, "bad_values_validated": 2000, "kinds": 14}},
      set_samples=["kinds"])
 
 meta("C11",
-     rule="(1) exhaustive table: 4 orientation pairs x 7 x 7 interval kinds (empty prefix, prefix, whole, inner, empty inner, suffix, empty suffix) x both sid orders = 392 E lines, each as its own graph and all together; L/C/G lines and self-edges x 4 orientation pairs x {A->B, A->A, B->A} incl. parallel links; (2) random GFA1/GFA2 graphs with several edges per end, re-checked after 1-4 random removals/renames mirrored on the text model; every traversal collection, derived answer (neighbours, containers, contained), edge predicate, from/to/other end and Gfa-level dovetails/containments is compared with the independent model of vlib/spec/edges.py; distinct = table cells (by construction) + distinct random graphs 30% of the random cases are shared mutation histories (forward references, renames onto placeholders, cascades, re-additions) with the collections judged after every step.",
+     rule="(1) exhaustive table: 4 orientation pairs x 7 x 7 interval kinds (empty prefix, prefix, whole, inner, empty inner, suffix, empty suffix) x both sid orders = 392 E lines, each as its own graph and all together; L/C/G lines and self-edges x 4 orientation pairs x {A->B, A->A, B->A} incl. parallel links; (2) random GFA1/GFA2 graphs with several edges per end, re-checked after 1-4 random removals/renames mirrored on the text model; every traversal collection, derived answer (neighbours, containers, contained), edge predicate, from/to/other end and Gfa-level dovetails/containments is compared with the independent model of vlib/spec/edges.py; distinct = table cells (by construction) + distinct random graphs 30% of the random cases are shared mutation histories (forward references, renames onto placeholders, cascades, re-additions) with the collections judged after every step. Histories contain refused and probe calls and the documented disconnect-edit-add-again of edges (judged after each); validation level 0-3 derived from the case; connected edges edited through their OrientedLine objects / GFA1-style attributes (refused or re-filed).",
      budget={"quick": 20, "thorough": 240},
-     min_counts={"quick": {"checks_after_mutation": 4000, "table_cells": 392, "lcg_cells": 30, "collections_compared": 20000, "edge_predicates_compared": 2000, "checks_after_mutation": 2000}},
+     min_counts={"quick": {"judged_after_refused_call": 800, "edits_through_value_objects": 1500, "checks_after_mutation": 4000, "table_cells": 392, "lcg_cells": 30, "collections_compared": 20000, "edge_predicates_compared": 2000, "checks_after_mutation": 2000}},
      exhaustive="table (1): 392 E-line cells + L/C/G/self-edge cells")
 meta("C16",
-     rule="GFA1/GFA2 graphs with isolated segments, trees, cycles, self-links, hairpins, parallel edges, containment-only and internal-only relations (plus generic generated documents); connected_components, segment_connected_component (by name and by instance) and the four counters are compared with an independent union-find / text count; then again after 0-4 random removals mirrored on the text model; remove_small_components vs component lengths; non-trivial = >=2 components and a cycle/self-link/hairpin/parallel/containment/internal feature 25% of the cases are shared mutation histories with components and counts judged after every step.",
+     rule="GFA1/GFA2 graphs with isolated segments, trees, cycles, self-links, hairpins, parallel edges, containment-only and internal-only relations (plus generic generated documents); connected_components, segment_connected_component (by name and by instance) and the four counters are compared with an independent union-find / text count; then again after 0-4 random removals mirrored on the text model; remove_small_components vs component lengths; non-trivial = >=2 components and a cycle/self-link/hairpin/parallel/containment/internal feature 25% of the cases are shared mutation histories with components and counts judged after every step. Large graphs (chains, rings, two chains of 300-4000 segments); histories with refused/probe calls judged after each; levels 0-3.",
      budget={"quick": 20, "thorough": 240},
-     min_counts={"quick": {"checks_after_history_step": 4000, "component_computations": 10000, "counters_compared": 40000, "checks_after_mutation": 2000, "remove_small_components": 500}},
+     min_counts={"quick": {"large_graphs_checked": 4, "judged_after_refused_call": 800, "checks_after_history_step": 4000, "component_computations": 10000, "counters_compared": 40000, "checks_after_mutation": 2000, "remove_small_components": 500}},
      set_samples=["shapes"])
 
 meta("C18",
      rule="(a) generated valid documents built at levels 0,1,2,3: written text (textually for canonical spelling, canonically for free spelling) and full observation must agree; (b) hostile documents and mutants built at all four levels: acceptance must be monotone (accepted at k => accepted at every lower level); (c) assignment scripts: 24 positional fields/tags x valid and invalid values x levels 0-3 x set()/attribute, followed by validate_field, validate, field_to_s, get, str: invalid reported at the assignment at level 3, at the latest on write at level 2, by explicit validation at every level; valid never rejected; non-trivial = document with delayed-parsing datatypes, acceptance differing between levels, or any assignment; distinct by (document | field, value, level, way) Sequences on a new tag: value(s) unrepresentable in their own default datatype (refused at level 3), then a representable value of another class, which must be accepted with its documented default datatype.",
      budget={"quick": 25, "thorough": 360},
-     min_counts={"quick": {"seq_valid_after_refused": 60, "level_builds": 4000, "monotonicity_builds": 4000, "assignments": 4000, "invalid_validated": 1200, "assign_cells": 150}})
+     min_counts={"quick": {"seq_valid_after_refused": 60, "level_builds": 4000, "monotonicity_builds": 4000, "assignments": 4000, "invalid_validated": 1200, "assign_cells": 250}})
 
 meta("C14",
-     rule="GFA1 (70%) and GFA2 graphs of 2-8 segments with M/=-only or '*' overlaps: backbone chains of 2-5 segments in every mix of orientations, rings, plus branches, self-links, hairpins on chain ends and inside, chains sharing junctions, with and without sequences; linear_paths() is compared with the independent chain finder (modulo reversal / ring rotation); after merge_linear_paths(): spelled sequence (orientation taken from the path gfapy reported), length, exact multiset of outward dovetails re-attached to the right ends, untouched segments, component partition, closed/symmetric object graph, idempotence; non-trivial = a chain of >=3 segments with mixed exit ends 30% of the merges use enable_tracking=True (the '^' marks in merged names are stripped before comparison).",
+     rule="GFA1 (70%) and GFA2 graphs of 2-8 segments with M/=-only or '*' overlaps: backbone chains of 2-5 segments in every mix of orientations, rings, plus branches, self-links, hairpins on chain ends and inside, chains sharing junctions, with and without sequences; linear_paths() is compared with the independent chain finder (modulo reversal / ring rotation); after merge_linear_paths(): spelled sequence (orientation taken from the path gfapy reported), length, exact multiset of outward dovetails re-attached to the right ends, untouched segments, component partition, closed/symmetric object graph, idempotence; non-trivial = a chain of >=3 segments with mixed exit ends 30% of the merges use enable_tracking=True (the '^' marks in merged names are stripped before comparison). Graphs built at validation levels 0-3.",
      budget={"quick": 20, "thorough": 300},
-     min_counts={"quick": {"merges_with_enable_tracking": 1000, "linear_paths_calls": 8000, "merges": 5000, "invariant_evaluations": 3000}},
+     min_counts={"quick": {"merges_at_level_3": 1500, "merges_at_level_0": 1500, "merges_with_enable_tracking": 1000, "linear_paths_calls": 8000, "merges": 5000, "invariant_evaluations": 3000}},
      set_samples=["features", "chain_lengths"])
 
 meta("C15",
@@ -141,13 +141,13 @@ meta("C15",
      set_samples=["configs"])
 
 meta("C17",
-     rule="GFA2 graphs of 2-6 segments and named edges; (a) ordered groups generated as presentations of a known alternating walk: full, segments only (edges implied where exactly one fits), edges only (segments implied), mixed omissions, nested sub-paths referenced + or - ; captured_path/segments/edges must equal the walk; (b) deliberately broken lists (foreign segment, ambiguous parallel edges, non-adjacent segments) must raise; (c) unordered groups over segments, edges, paths and nested sets: induced segments/edges/set vs an independent closure; (d) multi-line U/O definitions in ALL arrival orders of the group lines (<=4 lines): items concatenated in arrival order, tags united; documents are shuffled; non-trivial = nested or abbreviated or reversed presentation, broken list, set, multi-line group 40% of the graphs are built line by line with every group queried after each arrival (answers on the incomplete graph are not judged); twin unnamed identical edges as the only fitting edges must give the ambiguity error; group lines given as Line objects must be disconnected once merged.",
+     rule="GFA2 graphs of 2-6 segments and named edges; (a) ordered groups generated as presentations of a known alternating walk: full, segments only (edges implied where exactly one fits), edges only (segments implied), mixed omissions, nested sub-paths referenced + or - ; captured_path/segments/edges must equal the walk; (b) deliberately broken lists (foreign segment, ambiguous parallel edges, non-adjacent segments) must raise; (c) unordered groups over segments, edges, paths and nested sets: induced segments/edges/set vs an independent closure; (d) multi-line U/O definitions in ALL arrival orders of the group lines (<=4 lines): items concatenated in arrival order, tags united; documents are shuffled; non-trivial = nested or abbreviated or reversed presentation, broken list, set, multi-line group 40% of the graphs are built line by line with every group queried after each arrival (answers on the incomplete graph are not judged); twin unnamed identical edges as the only fitting edges must give the ambiguity error; group lines given as Line objects must be disconnected once merged. Nested paths whose listing begins/ends with an edge item (only lists on which the 'items in place' and 'walk in place' readings agree), a third nesting level, and multi-line groups nested in other groups with the outer lines arriving before/between/after the inner lines.",
      budget={"quick": 20, "thorough": 300},
-     min_counts={"quick": {"early_queries": 20000, "stale_objects_checked": 5000, "captured_paths": 5000, "rejected_lists": 1000, "induced_sets": 3000, "multiline_orders": 3000, "item_kinds": 4}},
+     min_counts={"quick": {"nested_paths_with_edge_ends": 300, "nested_multiline_resolutions": 15000, "early_queries": 20000, "stale_objects_checked": 5000, "captured_paths": 5000, "rejected_lists": 1000, "induced_sets": 3000, "multiline_orders": 3000, "item_kinds": 4}},
      set_samples=["kinds", "item_kinds"])
 
 meta("C06",
-     rule="GFA1 graphs whose segments have a length and whose overlaps are specified, asymmetric CIGARs (I/D/P), every orientation pair, self-links, containments at offset 0 / inner / flush right, linear, circular and single-segment paths traversing links in either direction, named and unnamed edges, tags; GFA2 graphs from G1 with CIGAR or '*' alignments; whole-graph conversion in both directions (string and Gfa), line-level refusals, there-and-back; edges are compared in the E-line semantic normal form (the four spellings under sid swap => I<->D and orientation flip => reversed operations) computed by an independent model from CIGAR reference/query lengths and segment lengths; converted text must be VALID for the target grammar and accepted by Gfa(vlevel=3).validate(); bin/gfapy-convert sampled; non-trivial = graph with an alignment that is not its own swap/reverse Several P lines per document, also the same walk the other way round, lines in any arrival order.",
+     rule="GFA1 graphs whose segments have a length and whose overlaps are specified, asymmetric CIGARs (I/D/P), every orientation pair, self-links, containments at offset 0 / inner / flush right, linear, circular and single-segment paths traversing links in either direction, named and unnamed edges, tags; GFA2 graphs from G1 with CIGAR or '*' alignments; whole-graph conversion in both directions (string and Gfa), line-level refusals, there-and-back; edges are compared in the E-line semantic normal form (the four spellings under sid swap => I<->D and orientation flip => reversed operations) computed by an independent model from CIGAR reference/query lengths and segment lengths; converted text must be VALID for the target grammar and accepted by Gfa(vlevel=3).validate(); bin/gfapy-convert sampled; non-trivial = graph with an alignment that is not its own swap/reverse Several P lines per document, also the same walk the other way round, lines in any arrival order. 8%: links/containments whose overlaps use GFA1-only operations (= X N S H): refusal, omission or valid GFA2, never invalid text (Gfa, line level, CLI); circular paths of one segment over a self-link.",
      budget={"quick": 25, "thorough": 360},
-     min_counts={"quick": {"conversions_1to2": 3000, "conversions_2to1": 1200, "edges_compared": 8000, "round_trips": 4000, "paths_compared": 500, "line_level_refusals": 500}},
+     min_counts={"quick": {"gfa1_only_alignment_conversions": 2000, "conversions_1to2": 3000, "conversions_2to1": 1200, "edges_compared": 8000, "round_trips": 4000, "paths_compared": 500, "line_level_refusals": 500}},
      assumptions=["containments whose container orientation is '-' (GFA1 does not say on which strand pos counts), dovetails spanning a whole segment, trace alignments and internal edges are outside the comparison (DESIGN 3.1)"])
